@@ -45,7 +45,7 @@ def separate_into_sections(pattern=DEFAULT_SECTION_PATTERN, independent=True, re
     report.start_group(report[TOOL_NAME]['section_group'])
     report.submission.clear_line_offsets()
     report[TOOL_NAME]['section_pattern'] = pattern
-    report[TOOL_NAME]['sections'] = re.split(pattern, report.submission.main_code, flags=re.MULTILINE)
+    report[TOOL_NAME]['sections'] = _split_sections(pattern, report.submission.main_code)
 
     backup = Substitution(report.submission.main_code, report.submission.main_file)
     report[TOOL_NAME]['substitutions'].append(backup)
@@ -54,6 +54,23 @@ def separate_into_sections(pattern=DEFAULT_SECTION_PATTERN, independent=True, re
     report.add_hook('pedal.resolvers.resolve', stop_any_sections)
 
     #print(report[TOOL_NAME]['sections'])
+
+
+def _split_sections(pattern, code):
+    """
+    Alternating code chunks and separators (the whole match), however many
+    groups the pattern has: ``re.split`` only gives that for a pattern whose
+    one group spans the entire separator.
+    """
+    pieces, position = [], 0
+    for match in re.finditer(pattern, code, flags=re.MULTILINE):
+        if match.end() == match.start():
+            continue
+        pieces.append(code[position:match.start()])
+        pieces.append(match.group(0))
+        position = match.end()
+    pieces.append(code[position:])
+    return pieces
 
 
 def _calculate_section_number(section_index):
